@@ -139,7 +139,13 @@ func runC07(c c07case) (res c07result) {
 		nt.held = keep
 		nt.mu.Unlock()
 		b = nt.addNode("B", kB, acceptAll, cfg)
-		b.sent = old.sent // same identity: plaintexts of the old instance still count as B's
+		// same identity: plaintexts of the old instance still count as B's (copied: the old instance's pending Send
+		// may still be registering its plaintext under its own lock)
+		old.mu.Lock()
+		for k, v := range old.sent {
+			b.sent[k] = v
+		}
+		old.mu.Unlock()
 		nt.link(a, b)
 		nt.link(b, a)
 		// messages A had in flight now reach the new instance
